@@ -314,6 +314,8 @@ class FakeQueue:
             return -1
         try:
             v = pickle.loads(x)
+            if v is None or isinstance(v, (bool, str)) or (isinstance(v, list) and not v):
+                return 0        # the falsy head item of the stream (see c08_filters.item_key)
             return int(v[0] if isinstance(v, list) else v)
         except Exception:
             return None
